@@ -578,12 +578,28 @@ class Cx:
                 if rv.is_const():
                     return Poly.const(abs(rv.const_value()))
                 raise CxUnknown("abs of symbolic data")
+            if nm in ("round", "floor", "ceil", "trunc") and rv.is_const():
+                import math
+                c_ = rv.const_value()
+                return Poly.const(Fraction({"round": lambda z: math.floor(z + Fraction(1, 2)) if z >= 0 else -math.floor(-z + Fraction(1, 2)),
+                                            "floor": math.floor, "ceil": math.ceil, "trunc": math.trunc}[nm](c_)))
+            if nm == "clamp" and len(args) == 2 and rv.is_const():
+                lo, hi = deref(self.ev(args[0], env)), deref(self.ev(args[1], env))
+                if isinstance(lo, Poly) and isinstance(hi, Poly) and lo.is_const() and hi.is_const():
+                    return Poly.const(min(max(rv.const_value(), lo.const_value()), hi.const_value()))
+            if nm in ("min", "max") and len(args) == 1 and rv.is_const():
+                o = deref(self.ev(args[0], env))
+                if isinstance(o, Poly) and o.is_const():
+                    return Poly.const((min if nm == "min" else max)(rv.const_value(), o.const_value()))
             if nm in ("mul_add",) and len(args) == 2:
                 return rv * deref(self.ev(args[0], env)) + deref(self.ev(args[1], env))
             if nm == "powi" and len(args) == 1:
                 n = deref(self.ev(args[0], env))
                 return rv ** n if n >= 0 else (rv ** (-n)).inverse()
         raise CxUnknown("method %s on %s" % (nm, type(rv).__name__))
+
+    def e_ItemStmt(self, e, env):
+        return None          # a nested item (const / fn) declares nothing at run time
 
     def e_Field(self, e, env):
         raise CxUnknown("field access")
@@ -592,6 +608,12 @@ class Cx:
         raise CxUnknown("closure")
 
     def e_Match(self, e, env):
+        # only irrefutable destructuring (the expansion of assert_eq! / debug_assert_eq!)
+        arms = e.get("arms", [])
+        if len(arms) == 1 and arms[0]["pat"].get("k") in ("PTuple", "PBind") and arms[0].get("guard") is None:
+            v = self.ev(e["scrut"], env)
+            self.bind(arms[0]["pat"], v, env)
+            return self.ev(arms[0]["body"], env)
         raise CxUnknown("match")
 
 
